@@ -1,4 +1,6 @@
-"""setup_cmd: build everything from files on disk (offline)."""
+"""setup_cmd: build everything from files on disk (offline).  The tables under coq/theories/Gen are regenerated from /repo's
+working tree first (the committed copies may stem from another tree), exactly as the checks of C10, C15, C19, C20 do."""
+import importlib
 import sys
 from . import driver as D
 
@@ -8,6 +10,20 @@ def main():
     if not ok:
         print(out[-4000:])
         return 1
+    for sid in ("c10", "c15", "c19", "c20"):
+        spec = importlib.import_module("lib.specs." + sid).SPEC
+        trs = spec.get("translators", [])
+        if not trs:
+            continue
+        ok, out = D.build_harness((spec.get("binary", "purecases"),))
+        if not ok:
+            print(out[-4000:])
+            return 1
+        for tr in trs:
+            rc, out, _ = D.run(tr, cwd=D.VERIF, env=dict(D.GOENV, VERIF_REPO=D.REPO), timeout=900, shell=isinstance(tr, str))
+            if rc != 0:
+                print("translator failed: %s\n%s" % (tr, out[-3000:]))
+                return 1
     ok, out = D.build_coq()
     print(out[-3000:])
     return 0 if ok else 1
